@@ -287,6 +287,107 @@ fn embedded_identities(c: &mut Collector) {
     }
 }
 
+// ---- a tracked graph as a field of derived records: the tokens must land where the offer is made, also when the record
+// buffers its fields per chunk (evolution steps) ------------------------------------------------------------------
+#[derive(desert::BinaryCodec)]
+struct HolderV0 {
+    g: Graph,
+    tail: u8,
+}
+
+#[derive(desert::BinaryCodec)]
+#[evolution(FieldAdded("title", String::new()))]
+struct HolderEv {
+    g: Graph,
+    title: String,
+    tail: u8,
+}
+
+fn zz_bytes(v: i32) -> Vec<u8> {
+    let mut out: Vec<u8> = vec![];
+    out.write_var_i32(v);
+    out
+}
+
+fn graph_in_records(adj: &[Vec<usize>], c: &mut Collector) {
+    c.eval();
+    let case = format!("graph-in-record={:?}", adj);
+    let nodes = build(adj);
+    INDEX_OF.with(|m| *m.borrow_mut() = nodes.iter().enumerate().map(|(i, n)| (Rc::as_ptr(n), i)).collect());
+    let want = canonical(&nodes[0]);
+    let gb = match guarded(|| desert::serialize_to_byte_vec(&Graph(nodes[0].clone()))) {
+        Out::Ok(b) => b,
+        _ => {
+            dismantle(&nodes);
+            return;
+        }
+    };
+    // headerless record: 0, fields in order
+    let mut want0 = vec![0u8];
+    want0.extend_from_slice(&gb);
+    want0.push(7);
+    // version 1: size of chunk 0, size of chunk 1, chunk 0 = graph ++ tail, chunk 1 = title
+    let tb = {
+        let mut t = zz_bytes(1);
+        t.push(b't');
+        t
+    };
+    let mut want1 = vec![1u8];
+    want1.extend_from_slice(&zz_bytes(gb.len() as i32 + 1));
+    want1.extend_from_slice(&zz_bytes(tb.len() as i32));
+    want1.extend_from_slice(&gb);
+    want1.push(7);
+    want1.extend_from_slice(&tb);
+    let e0 = guarded(|| desert::serialize_to_byte_vec(&HolderV0 { g: Graph(nodes[0].clone()), tail: 7 }));
+    let e1 = guarded(|| desert::serialize_to_byte_vec(&HolderEv { g: Graph(nodes[0].clone()), title: "t".to_string(), tail: 7 }));
+    for (which, enc, wantb) in [("headerless", e0, want0), ("evolved", e1, want1)] {
+        match enc {
+            Out::Ok(b) => {
+                if b != wantb {
+                    c.fail("graph", "oracle", &format!("graph|in-record-bytes-{}", which), case.clone(), format!("bytes {} expected {}", hex(&b), hex(&wantb)));
+                    continue;
+                }
+                ARENA.with(|a| a.borrow_mut().clear());
+                let dec = if which == "headerless" {
+                    guarded(|| desert::deserialize::<HolderV0>(&b).map(|h| (h.g, h.tail, String::new())))
+                } else {
+                    guarded(|| desert::deserialize::<HolderEv>(&b).map(|h| (h.g, h.tail, h.title)))
+                };
+                match dec {
+                    Out::Ok((g, tail, title)) => {
+                        let got = canonical(&g.0);
+                        if got != want || tail != 7 || (which == "evolved" && title != "t") {
+                            c.fail("graph", "oracle", &format!("graph|in-record-{}", which), case.clone(), format!("decoded {:?} tail {} title {:?}, expected {:?}", got, tail, title, want));
+                        } else {
+                            c.stat("graph-in-record-ok");
+                        }
+                        let all: Vec<NodeRef> = {
+                            let mut order: Vec<NodeRef> = vec![];
+                            fn visit(n: &NodeRef, order: &mut Vec<NodeRef>) {
+                                if order.iter().any(|m| Rc::ptr_eq(m, n)) {
+                                    return;
+                                }
+                                order.push(n.clone());
+                                let succ: Vec<NodeRef> = n.borrow().edges.clone();
+                                for s in succ.iter() {
+                                    visit(s, order);
+                                }
+                            }
+                            visit(&g.0, &mut order);
+                            order
+                        };
+                        dismantle(&all);
+                    }
+                    other => c.fail("graph", "oracle", &format!("graph|in-record-{}", which), case.clone(), format!("decoding gave {}", other.kind())),
+                }
+                ARENA.with(|a| a.borrow_mut().clear());
+            }
+            other => c.fail("graph", "oracle", &format!("graph|in-record-{}", which), case.clone(), format!("encoder gave {}", other.kind())),
+        }
+    }
+    dismantle(&nodes);
+}
+
 pub fn run(a: &Args) -> Collector {
     let mut c = Collector::new("graph");
     let mut q: Vec<Pending> = vec![];
@@ -335,6 +436,18 @@ pub fn run(a: &Args) -> Collector {
         check_graph(&adj, &mut c, &mut q);
     }
     embedded_identities(&mut c);
+    // graphs inside derived records (headerless and with evolution steps)
+    {
+        let mut r = Rng::new(a.seed ^ 0x77);
+        for adj in [vec![vec![]], vec![vec![0]], vec![vec![1, 1], vec![0]], vec![vec![1, 2], vec![3], vec![3], vec![0, 3]]] {
+            graph_in_records(&adj, &mut c);
+        }
+        for _ in 0..(if a.thorough { 600 } else { 80 }) {
+            let n = 1 + r.below(6) as usize;
+            let adj: Vec<Vec<usize>> = (0..n).map(|_| (0..r.below(3)).map(|_| r.below(n as u64) as usize).collect()).collect();
+            graph_in_records(&adj, &mut c);
+        }
+    }
     flush(&mut c, q, &[]);
     c
 }
